@@ -670,6 +670,13 @@ func (p *pwPath) constOfD(v ssa.Value, d int) (constant.Value, bool) {
 				}
 				return constant.MakeBool(constant.BoolVal(a) || constant.BoolVal(b)), true
 			}
+			if a.Kind() == constant.Int && (x.Op == token.AND || x.Op == token.OR) {
+				return constant.BinaryOp(a, x.Op, b), true // bit masks (character class tables)
+			}
+		case token.XOR, token.AND_NOT:
+			if a.Kind() == constant.Int {
+				return constant.BinaryOp(a, x.Op, b), true
+			}
 		}
 	case *ssa.UnOp:
 		if x.Op == token.NOT {
